@@ -25,7 +25,7 @@ RULE = (
     "for every writer in {extract_samps, extract_chans, extract_bands, apply_channel_mask, clean_rfi, invert_freq, downsample, subband, "
     "remove_zerodm, requantize, FilterbankBlock.to_file, TimeSeries.to_tim, FourierSeries.to_spec} x gulp in {1,2,3,N/2,N,10N} x depth {8,32,4}: the "
     "history of FileWriter.write/cwrite calls is recorded with an on-disk snapshot after each call (separate descriptor); every crash point "
-    "(after each write) must satisfy I1 complete final header, I2 byte-prefix of the final file, extension of the previous state by exactly the bytes written, I3 "
+    "(after each write) must satisfy I1 complete final header, I2 byte-prefix of the final file, extension of the previous state by exactly the bytes written and unchanged until the next write starts, I3 "
     "FilReader opens it and returns the first k samples; I4 the file is complete when the call returns (before any gc); plus every byte-length "
     "truncation of each final file from hdrlen upwards is opened and read; every history is also started from a non-initial state (the output names already exist and hold a longer stale product) and run on data whose last blocks are all zero; two writers produce a 24 MiB product in 24 blocks (sizes after every write, three crash states read back). thorough adds the syscall history (strace) replayed into a "
     "byte-array model: model == real file, no write below EOF, no truncate/rename. Non-trivial = crash states with 0 < k < n"
@@ -139,6 +139,7 @@ class _Recorder:
 
         self.FW = FileWriter
         self.hist: dict[str, list] = {}
+        self.pre: dict[str, list] = {}
         self.orig = {k: getattr(FileWriter, k) for k in ("__init__", "write", "cwrite", "close")}
 
     @staticmethod
@@ -154,13 +155,15 @@ class _Recorder:
             rec.hist.setdefault(str(file), []).append(("open", 0, rec.snap(file)))
 
         def write(self_, bo):
-            rec.orig["write"](self_, bo)
             p = self_.files[0]
+            rec.pre.setdefault(str(p), []).append(rec.snap(p))  # the state BETWEEN two writes: must still be the state the previous write left
+            rec.orig["write"](self_, bo)
             rec.hist[str(p)].append(("write", len(bo), rec.snap(p)))
 
         def cwrite(self_, arr):
-            rec.orig["cwrite"](self_, arr)
             p = self_.files[0]
+            rec.pre.setdefault(str(p), []).append(rec.snap(p))
+            rec.orig["cwrite"](self_, arr)
             rec.hist[str(p)].append(("cwrite", int(np.asarray(arr).size), rec.snap(p)))
 
         self.FW.__init__, self.FW.write, self.FW.cwrite = init, write, cwrite
@@ -262,9 +265,15 @@ def run_shard(shard: dict, ctx, res, only=None) -> None:
                 continue
             prev = b""
             ok = True
+            pres = rec.pre.get(str(p), [])
             for j, (kind, n, snap) in enumerate(writes):
                 res.evaluations += 1
                 what = f"after call {j} ({kind} of {n})"
+                if j >= 1 and j < len(pres) and pres[j] != prev:
+                    res.violation({"site": site, "symptom": "file changed between two writes (outside FileWriter.write/cwrite)", "at": "between writes"}, case,
+                                  f"before call {j}: {len(pres[j])} bytes on disk, the previous write left {len(prev)}")
+                    ok = False
+                    break
                 if snap[: len(prev)] != prev or len(snap) < len(prev):
                     res.violation({"site": site, "symptom": "output is not append-only (earlier bytes changed or file shrank)", "at": "between writes"}, case, what)
                     ok = False
@@ -365,9 +374,14 @@ def _big(shard, ctx, res, only):
         res.violation({"site": site, "symptom": "no header write recorded before data", "big": True}, case, f"{[w[:2] for w in writes[:3]]}")
         return
     prev = 0
+    pres = rec.pre.get(out, [])
     for j, (kind, n, size) in enumerate(writes):
         res.evaluations += 1
         grew = n if kind == "write" else n * nb // 8
+        if j >= 1 and j < len(pres) and pres[j] != prev:
+            res.violation({"site": site, "symptom": "file changed between two writes (outside FileWriter.write/cwrite)", "at": "between writes", "big": True}, case,
+                          f"before call {j}: {pres[j]} bytes on disk, the previous write left {prev}")
+            return
         if size != prev + grew:
             res.violation({"site": site, "symptom": "file length is not the number of bytes written so far (stale or missing bytes)", "at": "between writes", "big": True}, case,
                           f"after call {j} ({kind} of {n}): {size} bytes on disk, {prev} before + {grew} written")
@@ -424,7 +438,7 @@ def _syscalls(shard, ctx, res, only):
         log = wd / f"strace_{g}.log"
         code = _CHILD.format(repo=ctx.repo, verif=str(Path(__file__).resolve().parents[2]), wd=str(wd), inp=inp, writer=writer, g=g)
         env = dict(os.environ)
-        cmd = ["strace", "-f", "-y", "-s", "1000000", "-o", str(log), "-e", "trace=openat,open,creat,dup,dup2,dup3,fcntl,write,writev,pwrite64,lseek,ftruncate,truncate,rename,renameat,renameat2,unlink,unlinkat,close",
+        cmd = ["strace", "-f", "-y", "-s", "1000000", "-o", str(log), "-e", "trace=openat,open,creat,dup,dup2,dup3,fcntl,write,writev,pwrite64,lseek,ftruncate,truncate,fallocate,rename,renameat,renameat2,unlink,unlinkat,close",
                sys.executable, "-c", code]
         p = subprocess.run(cmd, capture_output=True, text=True, env=env, timeout=600)
         m = re.search(r"VF-OUTS (.*)", p.stdout)
@@ -547,14 +561,14 @@ def _replay_strace(text: str, outs: set[str]):
             if name == "write":
                 off[0] = pos + ret
             states[path].append(bytes(model[path]))
-        elif name in ("ftruncate", "truncate", "rename", "renameat", "renameat2", "unlink", "unlinkat"):
+        elif name in ("ftruncate", "truncate", "fallocate", "rename", "renameat", "renameat2", "unlink", "unlinkat"):
             for path in outs:
                 if path in args:
                     problems.setdefault(path, []).append((name, args[:80], 0))
             fm = re.match(r"(\d+)", args)
-            if name == "ftruncate" and fm and fdkey(pid, int(fm.group(1))) in fds:
+            if name in ("ftruncate", "fallocate") and fm and fdkey(pid, int(fm.group(1))) in fds:
                 path = fds[fdkey(pid, int(fm.group(1)))][0]
-                problems.setdefault(path, []).append(("ftruncate", args[:80], 0))
+                problems.setdefault(path, []).append((name, args[:80], 0))
     return model, states, problems
 
 
